@@ -44,6 +44,9 @@ type result struct {
 
 const fmtTimeout = 6 * time.Second
 
+// sources up to this size get every boundary x every style in the thorough tier before anything else
+const smallSource = 1200
+
 type prepared struct {
 	toks   []tokInfo
 	bounds []int
@@ -336,7 +339,7 @@ func search(f *vh.Flags, o *vh.Out) {
 	if thorough {
 		maxSize = 400000
 		budget = 11 * time.Minute
-		ngen = 1500
+		ngen = 800
 	}
 	if *flagMaxSize > 0 {
 		maxSize = *flagMaxSize
@@ -408,11 +411,24 @@ func search(f *vh.Flags, o *vh.Out) {
 				}
 			}
 		}
-		// deterministic shuffle so that a budget cut drops a uniform sample
-		for i := len(jobs) - 1; i > 0; i-- {
-			k := r.Intn(i + 1)
-			jobs[i], jobs[k] = jobs[k], jobs[i]
+		// small sources first (their boundaries are enumerated completely), then the rest;
+		// each part deterministically shuffled so that a budget cut drops a uniform sample
+		var small, rest []job
+		for _, j := range jobs {
+			if len(j.s.src) <= smallSource {
+				small = append(small, j)
+			} else {
+				rest = append(rest, j)
+			}
 		}
+		for _, part := range [][]job{small, rest} {
+			for i := len(part) - 1; i > 0; i-- {
+				k := r.Intn(i + 1)
+				part[i], part[k] = part[k], part[i]
+			}
+		}
+		jobs = append(small, rest...)
+		o.Stats["single_insertions_planned_small_sources"] = len(small)
 	} else {
 		// sampled: weight small sources (all XGo syntax) over large .go files
 		var pool []*source
